@@ -1,8 +1,65 @@
-"""C03  Attribute values are inert, single-line, and decode to the original."""
+"""C03  Attribute values are inert, single-line, and decode to the original.
+
+ENTRY POINTS that can reach the behaviour the property describes (what is written between the
+quotes of an attribute), and where this harness exercises them:
+
+  supplying values
+    Tag(name, *dicts, **kw)                                   scenarios + programs (mk "Tag")
+    tag functions: top-level re-exports (htmltools.div ...),  programs (mk "top" / "tags" / "svg")
+      htmltools.tags.*, htmltools.svg.*
+    tag.attrs.update(*dicts, **kw), tag.attrs[k] = v          ops "u", "s"
+    Tag.add_class(v, prepend=), Tag.add_style(v, prepend=)     ops "c", "y" (both prepend values)
+    TagAttrDict(*dicts, **kw) given to a tag                   programs (mk "tad"); "upd" = empty tag + update
+    copy.copy(tag) / copy.deepcopy(tag) / tag.tagify() and    programs (mk "copy" / "deepcopy" / "tagify": the copy is
+      further operations on the copy                            a tag of the program; the original is judged again)
+    consolidate_attrs(*args, **kw) -> dict given back to a    programs (mk "cons": positional dict,
+      tag as a positional dict / as **kwargs                    "conskw": keywords), reference routes
+    another tag's .attrs object / dict(tag.attrs) / the attrs  programs: reference arguments ("attrs", "dict",
+      of copy.copy / copy.deepcopy / tagify() of a tag /         "items", "copy", "deepcopy", "tagify", "tad",
+      consolidate_attrs(tag.attrs) / (**tag.attrs), nested       "cons", "conskw", "cons2"), as positional dict,
+                                                                 as **kwargs, in update, item by item ("sa"),
+                                                                 add_class(other.attrs.get("class")) ("cf"),
+                                                                 also the tag's OWN attrs as the argument
+    HTMLDocument(*content, **kw) (attributes of <html>; lang=,  documents step (generated <html> and the user's own
+      class_=, style= ...)                                       <html> tag with attributes of its own)
+    HTMLDependency(meta=, script=, stylesheet=) item dicts     dependencies step (<meta>, <script>, <link> attributes;
+      (every key becomes an attribute of the generated tag)      also through json render mode + HTMLTextDocument)
+  obtaining the markup (every one is judged by the same oracle)
+    Tag.get_html_string(indent, eol) with indent > 0, odd eol; TagList.get_html_string(indent, eol,
+    add_ws=False); str / repr / _repr_html_ / render()["html"] / tagify() (trees.render_routes, which
+    includes htmltools.html_dependency_render_mode = "json"); as a child added by the constructor /
+    append / insert / extend / children.append / TagList + / += / reflected +; inside a tagifiable
+    object that is also self-rendering; inside head_content() inside a document; one object in two
+    parents; under up to 70 wrappers, after / before up to 300 siblings, inside up to 70 nested lists /
+    tuples / TagLists; inside head_content() inside a document that has its own <html>/<head>/<body>;
+    HTMLDocument.render(lib_prefix=None,
+    include_version=False); save_html(libdir=None, include_version=False) of Tag / TagList /
+    HTMLDocument; the with-block (sys.displayhook) route; a tag used as a context manager and then
+    copied; copy.copy / copy.deepcopy.
+  NOT exercised, reported instead: Tag.remove_class on a class value that is HTML() (a plain value was
+    merged with an HTML() value): it rebuilds the value from its whitespace tokens as a plain str, so the
+    already escaped plain part is escaped again and no longer decodes to what was supplied --
+    Tag("div", {"class": "p&q"}, class_=HTML("h")).remove_class("h") renders class="p&amp;amp;q".
+    remove_class is not among the property's ways of supplying a value (class-list operations are C16's
+    subject; same family as the known finding C16-html-class-merge; DESIGN section 7 lists the demotion).
+  not applicable: __eq__ (no markup is produced), get_dependencies, JSX components (an ordinary tag
+    inside a JSX component is written as a JavaScript expression, not by the attribute writer: C20),
+    css() (builds a style string; its escaping as an attribute value is add_style / style= above).
+
+State shared between objects or calls: HTML() objects with equal text are ONE object throughout the
+run; every construction can be repeated with the very same argument objects (the twin must render the
+same text); every tag is rendered again at the end of its program, after all later tags were built
+from it and every route was used (it must still have the text its own arguments demand).
+"""
 from __future__ import annotations
 
+import copy
 import html as pyhtml
 import itertools
+import os
+import re
+import sys
+import tempfile
 from html.parser import HTMLParser
 
 from ..common import Ctx, S, unS, differential, run_model
@@ -11,9 +68,10 @@ from ..trees import safe_call
 from . import C15 as A
 
 import htmltools
-from htmltools import HTML, Tag
+from htmltools import HTML, HTMLDependency, HTMLDocument, HTMLTextDocument, Tag, TagList, consolidate_attrs, head_content
 
 SPEC_ATTR = {"&": "&amp;", "<": "&lt;", ">": "&gt;", '"': "&quot;", "'": "&apos;", "\r": "&#13;", "\n": "&#10;"}
+METAS = "\"'<>&\r\n"
 
 
 def spec_escape(s: str) -> str:
@@ -27,8 +85,16 @@ def norm_name(k: str) -> str:
     return k.replace("_", "-")
 
 
+# value ::= C15's values | ["L", "S"|"H", unit, reps, tail]   (a long string: unit * reps + tail)
+def xv(v):
+    if v[0] == "L":
+        return [v[1], v[2] * int(v[3]) + v[4]]
+    return v
+
+
 def emit(v):
     """what must appear between the quotes for one supplied value; None = contributes nothing"""
+    v = xv(v)
     k = v[0]
     if k == "N" or (k == "B" and not v[1]):
         return None
@@ -58,83 +124,119 @@ def call_emit(dicts, kw):
     return out
 
 
+def apply_op(st, o, res=None):
+    """the attribute texts after one operation (a raising operation changes nothing).
+    res(darg, current texts) -> dict literal: resolves the arguments of program operations"""
+    try:
+        if o[0] == "u":
+            new = call_emit(o[1], o[2]) if res is None else call_emit([res(d, st) for d in o[1]], res(o[2], st))
+        elif o[0] == "s":
+            e = emit(o[2])
+            new = {} if e is None else {norm_name(o[1]): e}
+        elif o[0] == "sa":
+            new = {norm_name(k): emit(v) for k, v in res(["r", o[1], o[2]], st)}
+        else:
+            name = "style" if o[0] == "y" else "class"
+            if o[0] == "cf":
+                e = dict((k, emit(v)) for k, v in res(["r", o[1], "attrs"], st)).get("class")
+            else:
+                e = emit(o[1])
+            old = st.get(name)
+            parts = [e, old] if o[2] else [old, e]
+            parts = [p for p in parts if p is not None]
+            new = {name: " ".join(parts)} if parts else {}
+    except TypeError:
+        return
+    st.update(new)
+
+
 def expected(case):
-    """name -> text between the quotes, in attribute order; or ('err',)"""
+    """name -> text between the quotes, in attribute order; or None (construction must raise)"""
     try:
         st = call_emit(case["dicts"], case["kw"])
     except TypeError:
         return None
     for o in case["ops"]:
-        try:
-            if o[0] == "u":
-                new = call_emit(o[1], o[2])
-            elif o[0] == "s":
-                e = emit(o[2])
-                new = {} if e is None else {norm_name(o[1]): e}
-            else:
-                name = "class" if o[0] == "c" else "style"
-                e = emit(o[1])
-                old = st.get(name)
-                parts = [e, old] if o[2] else [old, e]
-                parts = [p for p in parts if p is not None]
-                new = {name: " ".join(parts)} if parts else {}
-        except TypeError:
-            continue
-        st.update(new)
+        apply_op(st, o)
     return st
+
+
+def rand_val(rng, plain_only=False):
+    v = A.rand_value(rng, bad_p=0.02)
+    if plain_only and v[0] == "H":
+        v = ["S", v[1]]
+    if v[0] == "S" and rng.random() < 0.4:
+        v = ["S", "".join(rng.choice("\"'<>&\r\n ;a=") for _ in range(rng.randrange(1, 6)))]
+    return v
+
+
+KEYS = ["class", "class_", "style", "id", "x", "x_", "data_x", "title", "a_b", "a-b"]
+
+
+def rand_dict(rng, plain_only=False):
+    keys = []
+    for _ in range(rng.choice([0, 1, 1, 2, 3])):
+        k = rng.choice(KEYS)
+        if k not in keys:
+            keys.append(k)
+    return [[k, rand_val(rng, plain_only)] for k in keys]
+
+
+def kw_ok(d):
+    return [kv for kv in d if kv[0].replace("_", "a").isidentifier()]
+
+
+def rand_basic_op(rng, plain_only):
+    r = rng.random()
+    if r < 0.5:
+        return ["s", rng.choice(["class", "id", "x_", "style"]), rand_val(rng, plain_only)]
+    if r < 0.8:
+        v = rand_val(rng, plain_only)
+        if v[0] not in ("S", "H"):
+            v = ["S", "tok"]
+        return ["c", v, rng.random() < 0.5]
+    v = rand_val(rng, plain_only)
+    if v[0] not in ("S", "H"):
+        v = ["S", "color:red"]
+    return ["y", [v[0], v[1] + ";"], rng.random() < 0.5]
 
 
 def rand_case(rng):
     plain_only = rng.random() < 0.3
-    def val():
-        v = A.rand_value(rng, bad_p=0.02)
-        if plain_only and v[0] == "H":
-            v = ["S", v[1]]
-        if v[0] == "S" and rng.random() < 0.4:
-            v = ["S", "".join(rng.choice("\"'<>&\r\n ;a=") for _ in range(rng.randrange(1, 6)))]
-        return v
-    def rdict():
-        keys = []
-        for _ in range(rng.choice([0, 1, 1, 2, 3])):
-            k = rng.choice(["class", "class_", "style", "id", "x", "x_", "data_x", "title", "a_b", "a-b"])
-            if k not in keys:
-                keys.append(k)
-        return [[k, val()] for k in keys]
-    dicts = [rdict() for _ in range(rng.choice([0, 1, 1, 2, 3]))]
-    kw = [kv for kv in rdict() if kv[0].replace("_", "a").isidentifier()]
+    dicts = [rand_dict(rng, plain_only) for _ in range(rng.choice([0, 1, 1, 2, 3]))]
+    kw = kw_ok(rand_dict(rng, plain_only))
     ops = []
     for _ in range(rng.choice([0, 0, 1, 2, 3])):
-        r = rng.random()
-        if r < 0.3:
-            ops.append(["u", [rdict() for _ in range(rng.choice([1, 1, 2]))],
-                        [kv for kv in rdict() if kv[0].replace("_", "a").isidentifier()]])
-        elif r < 0.5:
-            ops.append(["s", rng.choice(["class", "id", "x_", "style"]), val()])
-        elif r < 0.8:
-            v = val()
-            if v[0] not in ("S", "H"):
-                v = ["S", "tok"]
-            ops.append(["c", v, rng.random() < 0.5])
+        if rng.random() < 0.3:
+            ops.append(["u", [rand_dict(rng, plain_only) for _ in range(rng.choice([1, 1, 2]))],
+                        kw_ok(rand_dict(rng, plain_only))])
         else:
-            v = val()
-            if v[0] not in ("S", "H"):
-                v = ["S", "color:red"]
-            ops.append(["y", [v[0], v[1] + ";"], rng.random() < 0.5])
+            ops.append(rand_basic_op(rng, plain_only))
     return {"dicts": dicts, "kw": kw, "ops": ops}
+
+
+def xdict(d):
+    return [[k, xv(v)] for k, v in d]
+
+
+def op_sx(o):
+    if o[0] == "s":
+        return [1, S(o[1]), A.value_sx(xv(o[2]))]
+    if o[0] == "c":
+        return [2, A.value_sx(xv(o[1])), 1 if o[2] else 0]
+    if o[0] == "y":
+        return [3, A.value_sx(xv(o[1])), 1 if o[2] else 0]
+    raise ValueError(o)
 
 
 def case_sx(c):
     ops = []
     for o in c["ops"]:
         if o[0] == "u":
-            ops.append([0, [A.dict_sx(d) for d in o[1]], A.dict_sx(o[2])])
-        elif o[0] == "s":
-            ops.append([1, S(o[1]), A.value_sx(o[2])])
-        elif o[0] == "c":
-            ops.append([2, A.value_sx(o[1]), 1 if o[2] else 0])
+            ops.append([0, [A.dict_sx(xdict(d)) for d in o[1]], A.dict_sx(xdict(o[2]))])
         else:
-            ops.append([3, A.value_sx(o[1]), 1 if o[2] else 0])
-    return [1, [A.dict_sx(d) for d in c["dicts"]], A.dict_sx(c["kw"]), ops]
+            ops.append(op_sx(o))
+    return [1, [A.dict_sx(xdict(d)) for d in c["dicts"]], A.dict_sx(xdict(c["kw"])), ops]
 
 
 _HTML_POOL: dict = {}
@@ -155,26 +257,41 @@ def _pool_intact():
     return [k for k, o in _HTML_POOL.items() if o.data != k]
 
 
+def mk_value(v):
+    return _shared(A.build_value(xv(v)))
+
+
+def mk_dict(d):
+    return {k: mk_value(v) for k, v in d}
+
+
+def basic_op(t, o):
+    if o[0] == "s":
+        def f():
+            t.attrs[o[1]] = mk_value(o[2])
+        safe_call(f)
+    elif o[0] == "c":
+        safe_call(lambda: t.add_class(mk_value(o[1]), prepend=bool(o[2])))
+    elif o[0] == "y":
+        safe_call(lambda: t.add_style(mk_value(o[1]), prepend=bool(o[2])))
+    else:
+        raise ValueError(o)
+
+
 def impl(c):
-    ds = [{k: _shared(v) for k, v in A.build_dict(d).items()} for d in c["dicts"]]
-    kw = {k: _shared(v) for k, v in A.build_dict(c["kw"]).items()}
+    ds = [mk_dict(d) for d in c["dicts"]]
+    kw = mk_dict(c["kw"])
     r = safe_call(lambda: Tag("div", *ds, **kw))
     if r[0] != "ok":
         return ("err", r[1])
     t = r[1]
     for o in c["ops"]:
         if o[0] == "u":
-            dd = [{k: _shared(v) for k, v in A.build_dict(d).items()} for d in o[1]]
-            kk = {k: _shared(v) for k, v in A.build_dict(o[2]).items()}
+            dd = [mk_dict(d) for d in o[1]]
+            kk = mk_dict(o[2])
             safe_call(lambda: t.attrs.update(*dd, **kk))
-        elif o[0] == "s":
-            def f():
-                t.attrs[o[1]] = _shared(A.build_value(o[2]))
-            safe_call(f)
-        elif o[0] == "c":
-            safe_call(lambda: t.add_class(_shared(A.build_value(o[1])), prepend=o[2]))
         else:
-            safe_call(lambda: t.add_style(_shared(A.build_value(o[1])), prepend=o[2]))
+            basic_op(t, o)
     out = t.get_html_string()
     assert out.endswith("></div>")
     return ("ok", out[len("<div"):-len("></div>")])
@@ -198,17 +315,766 @@ def has_html(c):
             vals.append(o[2])
         else:
             vals.append(o[1])
-    return any(v[0] == "H" for v in vals), any(v[0] == "S" and any(ch in v[1] for ch in "\"'<>&\r\n") for v in vals)
+    return any(v[0] == "H" for v in vals), any(v[0] == "S" and any(ch in v[1] for ch in METAS) for v in vals)
+
+
+def attr_text_msg(want: dict, got: str, anyh: bool) -> str | None:
+    """the emitted attribute text of one opening tag against the texts the statement demands"""
+    want_s = "".join(f' {k}="{v}"' for k, v in want.items())
+    if got != want_s:
+        return ("attribute text differs from: each plain value escaped (attribute table) exactly once, "
+                "HTML() values verbatim, joined by single spaces")
+    if not anyh:
+        p = OpenTag()
+        p.feed("<div" + got + ">")
+        if len(p.tags) != 1 or [k for k, _ in p.tags[0][1]] != [k.lower() for k in want]:
+            return "opening tag does not tokenize into exactly the expected attributes"
+        for (k, v), (k2, e) in zip(p.tags[0][1], want.items()):
+            if (v or "") != pyhtml.unescape(e):
+                return "attribute value does not decode to the supplied value"
+        if "\n" in got or "\r" in got:
+            return "opening tag is broken across lines"
+    return None
+
+
+# =====================================================================================
+# programs: several tags; attribute maps flow from one tag into another
+#   darg  ::= ["d", dict] | ["r", k, how]      (the attribute map of tag k, obtained in way `how`)
+#   stage ::= {"mk": [kind, name], "dicts": [darg], "kw": darg, "kid": pos|None, "ops": [op], "obs": obs}
+#   op    ::= ["u", [darg], darg] | ["s", key, value] | ["c", value, prepend] | ["y", value, prepend]
+#           | ["sa", k, how]  (item-assign every item of that map) | ["cf", k, prepend] (add_class of its class)
+#   obs   ::= {"route": r, "indent": n, "eol": s, "depth": n, "before": n, "after": n, "nest": n, "add_ws": b}
+# =====================================================================================
+HOWS = ["attrs", "dict", "items", "cons", "conskw", "cons2", "copy", "deepcopy", "tagify", "tad"]
+MKS = [("Tag", ["div", "x-obs", "My:El"]), ("top", ["div", "span", "p", "a", "img", "code", "em"]),
+       ("tags", ["li", "label", "input", "td"]), ("svg", ["g", "circle", "text"]),
+       ("cons", ["div", "span"]), ("conskw", ["div", "p"]), ("tad", ["div", "li"]), ("upd", ["div", "a"])]
+WRAP = ["section", "ul", "main", "article"]
+DEFAULT_ROUTES = ["r0", "r1", "r2", "r3", "r4", "r5", "r6"]          # trees.render_routes, by position
+LAYOUT_ROUTES = ["ghs", "taglist", "copy", "deepcopy", "append", "insert", "extend", "children_append",
+                 "iadd", "add", "radd", "ctor"]
+OTHER_ROUTES = ["doc", "doc_body", "doc_html", "doc_head", "doc_head_own", "with", "ctx_copy", "in_custom", "two_parents",
+                "taglist_r3", "taglist_r6"]
+FILE_ROUTES = ["save_tag", "save_taglist", "save_doc"]
+EOLS = ["\n", "", "\r\n", " ", "\n\n", "<!--eol-->"]
+
+
+def ref_obj(tags, k, how):
+    t = tags[k]
+    if how == "attrs":
+        return t.attrs
+    if how == "dict":
+        return dict(t.attrs)
+    if how == "items":
+        return dict(list(t.attrs.items()))
+    if how == "cons":
+        return consolidate_attrs(t.attrs)[0]
+    if how == "conskw":
+        return consolidate_attrs(**t.attrs)[0]
+    if how == "cons2":
+        return consolidate_attrs(consolidate_attrs(t.attrs, "child")[0])[0]
+    if how == "copy":
+        return copy.copy(t).attrs
+    if how == "deepcopy":
+        return copy.deepcopy(t).attrs
+    if how == "tagify":
+        return t.tagify().attrs
+    if how == "tad":
+        return type(t.attrs)(t.attrs)
+    raise ValueError(how)
+
+
+def darg_obj(d, tags):
+    return mk_dict(d[1]) if d[0] == "d" else ref_obj(tags, d[1], d[2])
+
+
+COPY_MKS = {"copy": copy.copy, "deepcopy": copy.deepcopy, "tagify": lambda t: t.tagify()}
+
+
+def construct(s, args, kw, tags=()):
+    mk, name = s["mk"]
+    if mk in COPY_MKS:
+        # the tag IS a copy of the earlier tag named by its only argument (what is then done to the copy
+        # must not show in the original, and the other way round)
+        return COPY_MKS[mk](tags[int(s["dicts"][0][1])])
+    if mk == "Tag":
+        return Tag(name, *args, **kw)
+    if mk in ("top", "tags", "svg"):
+        f = getattr({"top": htmltools, "tags": htmltools.tags, "svg": htmltools.svg}[mk], name)
+        return f(*args, **kw)
+    if mk == "cons":
+        a, ch = consolidate_attrs(*args, **kw)
+        return Tag(name, a, *ch)
+    if mk == "conskw":
+        a, ch = consolidate_attrs(*args, **kw)
+        return Tag(name, *ch, **a)
+    ds = [a for a in args if isinstance(a, dict)]
+    ch = [a for a in args if not isinstance(a, dict)]
+    if mk == "tad":
+        return Tag(name, type(Tag("i").attrs)(*ds, **kw), *ch)
+    if mk == "upd":
+        t = Tag(name, *ch)
+        t.attrs.update(*ds, **kw)
+        return t
+    raise ValueError(mk)
+
+
+def run_ops(t, s, tags):
+    """tags: the earlier tags followed by t itself (a reference to t's own number is t's live map)"""
+    for o in s["ops"]:
+        if o[0] == "u":
+            def f():
+                dd = [darg_obj(d, tags) for d in o[1]]
+                kk = darg_obj(o[2], tags)
+                t.attrs.update(*dd, **kk)
+            safe_call(f)
+        elif o[0] == "sa":
+            def g():
+                for n, v in list(ref_obj(tags, o[1], o[2]).items()):
+                    t.attrs[n] = v
+            safe_call(g)
+        elif o[0] == "cf":
+            safe_call(lambda: t.add_class(tags[o[1]].attrs.get("class"), prepend=bool(o[2])))
+        else:
+            basic_op(t, o)
+
+
+def place(t, obs):
+    """t as the child of a wide parent (siblings before / after) under a chain of wrappers"""
+    x = t
+    b, a = int(obs.get("before", 0)), int(obs.get("after", 0))
+    if b or a:
+        def sib(j):
+            return Tag("hr") if j % 7 == 3 else Tag("b", "s") if j % 7 == 5 else "t%d " % j
+        x = Tag("ul", *[sib(j) for j in range(b)], t, *[sib(j + 1) for j in range(a)])
+    if obs.get("nest"):
+        # given to its parent inside nested lists / tuples / TagLists (flattened by the library)
+        for j in range(int(obs["nest"])):
+            x = [x] if j % 3 == 0 else (x, "n%d" % j) if j % 3 == 1 else TagList(x)
+        x = Tag("ul", "lead", x)
+    for j in range(int(obs.get("depth", 0))):
+        x = Tag(WRAP[j % 4], x, _add_ws=(j % 5 != 4))
+    return x
+
+
+def capture_displayhook(body):
+    """run body() with sys.displayhook capturing; returns the captured values"""
+    got: list = []
+    old = sys.displayhook
+    sys.displayhook = got.append
+    try:
+        body()
+    finally:
+        sys.displayhook = old
+    return got
+
+
+def read_back(save):
+    d = tempfile.mkdtemp(prefix="c03-")
+    path = os.path.join(d, "out.html")
+    try:
+        save(path)
+        with open(path, encoding="utf-8", newline="") as f:
+            return f.read()
+    finally:
+        for fn in os.listdir(d):
+            os.remove(os.path.join(d, fn))
+        os.rmdir(d)
+
+
+def observe(t, obs) -> str:
+    """markup containing t's opening tag, obtained by the route and layout arguments of obs"""
+    route = obs.get("route", "r0")
+    indent, eol = int(obs.get("indent", 0)), obs.get("eol", "\n")
+    x = place(t, obs)
+    if route[0] == "r" and route[1:].isdigit():
+        return trees.render_routes(x)[int(route[1:])][1]()
+    if route.startswith("taglist_r"):
+        return trees.render_routes(TagList("lead ", x))[int(route[len("taglist_r"):])][1]()
+    if route == "ghs":
+        return x.get_html_string(indent, eol)
+    if route == "taglist":
+        return TagList("lead ", x, Tag("hr")).get_html_string(indent, eol, add_ws=bool(obs.get("add_ws", True)))
+    if route == "copy":
+        return copy.copy(x).get_html_string(indent, eol)
+    if route == "deepcopy":
+        return copy.deepcopy(x).get_html_string(indent, eol)
+    if route in ("append", "insert", "extend", "children_append", "iadd", "add", "radd", "ctor"):
+        p = Tag("nav", "first") if route != "ctor" else Tag("nav", "first", [x, ("tail",)])
+        if route == "append":
+            p.append(x, "tail")
+        elif route == "insert":
+            p.insert(0, x)
+        elif route == "extend":
+            p.extend([x, "tail"])
+        elif route == "children_append":
+            p.children.append(x)
+        elif route == "iadd":
+            p.children += [x]
+        elif route == "add":
+            p.children = p.children + [x, "tail"]
+        elif route == "radd":
+            p.children = [x] + p.children
+        return p.get_html_string(indent, eol)
+    if route == "doc":
+        return HTMLDocument(x, "more").render(lib_prefix=None, include_version=False)["html"]
+    if route == "doc_body":
+        return HTMLDocument(Tag("body", x), lang="en").render()["html"]
+    if route == "doc_html":
+        return HTMLDocument(Tag("html", Tag("head", Tag("title", "T")), Tag("body", x))).render(lib_prefix="l/i b")["html"]
+    if route == "doc_head":
+        # (the generated dependency's name is a hash of the head markup: shown in the document, not compared)
+        return re.sub(r"headcontent_[0-9a-f]+\[", "headcontent_#[", HTMLDocument(Tag("nav", "text", head_content(x))).render()["html"])
+    if route == "doc_head_own":
+        doc = HTMLDocument(Tag("html", Tag("head", Tag("title", "T")), Tag("body", "b", Tag("nav", head_content(x, "more")))), lang="en")
+        return re.sub(r"headcontent_[0-9a-f]+\[", "headcontent_#[", doc.render(lib_prefix=None, include_version=False)["html"])
+    if route == "with":
+        p = Tag("nav")
+
+        def body():
+            with p:
+                sys.displayhook(x)          # what a REPL does with the value of an expression statement
+        got = capture_displayhook(body)
+        return str(got[-1])
+    if route == "ctx_copy":
+        def body2():
+            with x:
+                pass
+        capture_displayhook(body2)
+        return copy.copy(x).get_html_string(indent, eol)
+    if route == "in_custom":
+        return Tag("nav", trees.CustomReprObj([x], False, "<i>self</i>"), "after").render()["html"]
+    if route == "two_parents":
+        return TagList(Tag("nav", x), Tag("nav", "again", x)).get_html_string(indent, eol)
+    if route == "save_tag":
+        return read_back(lambda path: x.save_html(path, libdir=None, include_version=False))
+    if route == "save_taglist":
+        return read_back(lambda path: TagList("lead ", x).save_html(path, libdir=None))
+    if route == "save_doc":
+        return read_back(lambda path: HTMLDocument(x, class_="doc").save_html(path, libdir=None, include_version=False))
+    raise ValueError(route)
+
+
+def open_tags(out: str, name: str) -> list:
+    """attribute text of every opening tag called `name` in out, for values WITHOUT a raw double
+    quote (plain values, once the writer is right): a scanner of the writer's own format -- space,
+    name, equals sign, double quote, everything up to the next double quote"""
+    res = []
+    for m in re.finditer("<" + re.escape(name) + r"(?=[ >/])", out):
+        i = m.end()
+        while i < len(out) and out[i] != ">" and not out.startswith("/>", i):
+            j = out.find('="', i)
+            k = out.find('"', j + 2) if j >= 0 else -1
+            if k < 0:
+                i = len(out)
+                break
+            i = k + 1
+        res.append(out[m.end():i])
+    return res
+
+
+def observed_attr_text(t, name, obs):
+    """('ok', attribute text) of tag t as seen through the observation route, or ('err', ...).
+    HTML() values are written verbatim, so the end of the opening tag cannot be found by scanning;
+    the same placement is rendered with an attribute-less stand-in for t (same name, children and
+    whitespace flag) and the two markups must differ by exactly an insertion after the tag name."""
+    r = safe_call(lambda: observe(t, obs))
+    if r[0] != "ok":
+        return r
+    if not isinstance(r[1], str):
+        return ("err", "exc:not-a-str")
+    r0 = safe_call(lambda: observe(Tag(name, *t.children, _add_ws=t.add_ws), obs))
+    n = 2 if obs.get("route") == "two_parents" else 1
+    ms = list(re.finditer("<" + re.escape(name) + r"(?=>|/>)", r0[1])) if r0[0] == "ok" else []
+    if len(ms) != n:
+        return ("err", "exc:stand-in-not-rendered")
+    out, out0 = r[1], r0[1]
+    extra = len(out) - len(out0)
+    if extra < 0 or extra % n:
+        return ("err", "exc:markup-around-the-opening-tag-differs", out[:600])
+    k, p = extra // n, ms[0].end()
+    a = out[p:p + k]
+    rebuilt = out0[:p] + a + (out0[p:] if n == 1 else out0[p:ms[1].end()] + a + out0[ms[1].end():])
+    if rebuilt != out:
+        return ("err", "exc:markup-around-the-opening-tag-differs", out[:600])
+    return ("ok", a)
+
+
+_LAST: dict = {}
+
+
+def prog_impl(p):
+    """per tag ('ok', attribute text seen through its route) | ('err', code).  Side results for the
+    oracle in _LAST: twins, second renderings, objects of the caller that changed."""
+    tags, res, twins, notes = [], [], {}, []
+    stages = p["prog"]
+    for i, s in enumerate(stages):
+        def build():
+            args = [darg_obj(d, tags) for d in s["dicts"]]
+            kw = darg_obj(s["kw"], tags)
+            if s.get("kid") is not None:
+                args.insert(min(int(s["kid"]), len(args)), "kid")
+            return args, kw
+        a = safe_call(build)
+        r = safe_call(lambda: construct(s, a[1][0], a[1][1], tags)) if a[0] == "ok" else a
+        if r[0] != "ok" or not isinstance(r[1], Tag):
+            res.append(("err", r[1] if r[0] != "ok" else "exc:not-a-tag"))
+            tags.append(Tag(s["mk"][1]))
+            continue
+        t = r[1]
+        tags.append(t)
+        run_ops(t, s, tags)
+        res.append(None)
+        if p.get("twin"):
+            # the same construction again from the very same argument objects: must give the same text
+            r2 = safe_call(lambda: construct(s, a[1][0], a[1][1], tags))
+            if r2[0] == "ok":
+                t2 = r2[1]
+                run_ops(t2, s, tags[:i] + [t2])
+                twins[i] = observed_attr_text(t2, s["mk"][1], {"route": "ghs"})
+            else:
+                twins[i] = r2
+    for i, s in enumerate(stages):
+        if res[i] is None:
+            res[i] = observed_attr_text(tags[i], s["mk"][1], s["obs"])
+    again = {}
+    for i, s in enumerate(stages):
+        if res[i][0] == "ok":
+            again[i] = observed_attr_text(tags[i], s["mk"][1], {"route": "ghs"})
+    _LAST.clear()
+    _LAST.update({"twins": twins, "again": again, "notes": notes})
+    return res
+
+
+def prog_expected(p):
+    """per tag: name -> text between the quotes, or None (the construction must raise)"""
+    done: list = []
+    for i, s in enumerate(p["prog"]):
+        def res(d, cur):
+            if d[0] == "d":
+                return d[1]
+            src = cur if d[1] == i else done[d[1]]
+            return [[n, ["H", e]] for n, e in (src or {}).items()]
+        try:
+            st = call_emit([res(d, None) for d in s["dicts"]], res(s["kw"], None))
+        except TypeError:
+            done.append(None)
+            continue
+        for o in s["ops"]:
+            apply_op(st, o, res)
+        done.append(st)
+    return done
+
+
+def prog_sx(p):
+    def darg(d):
+        return [0, A.dict_sx(xdict(d[1]))] if d[0] == "d" else [1, int(d[1])]
+    out = []
+    for s in p["prog"]:
+        ops = []
+        for o in s["ops"]:
+            if o[0] == "u":
+                ops.append([0, [darg(d) for d in o[1]], darg(o[2])])
+            elif o[0] == "sa":
+                ops.append([4, int(o[1])])
+            elif o[0] == "cf":
+                ops.append([5, int(o[1]), 1 if o[2] else 0])
+            else:
+                ops.append(op_sx(o))
+        out.append([[darg(d) for d in s["dicts"]], darg(s["kw"]), ops])
+    return [3, out]
+
+
+def prog_values(p):
+    for s in p["prog"]:
+        ds = list(s["dicts"]) + [s["kw"]]
+        for o in s["ops"]:
+            if o[0] == "u":
+                ds += list(o[1]) + [o[2]]
+            elif o[0] == "s":
+                yield xv(o[2])
+            elif o[0] in ("c", "y"):
+                yield xv(o[1])
+        for d in ds:
+            if d[0] == "d":
+                for _, v in d[1]:
+                    yield xv(v)
+
+
+def prog_traits(p):
+    vals = list(prog_values(p))
+    anyh = any(v[0] == "H" for v in vals)
+    meta = any(v[0] == "S" and any(ch in v[1] for ch in METAS) for v in vals)
+    refs = any(d[0] == "r" for s in p["prog"] for d in list(s["dicts"]) + [s["kw"]]) or \
+        any(o[0] in ("sa", "cf") or (o[0] == "u" and any(d[0] == "r" for d in list(o[1]) + [o[2]]))
+            for s in p["prog"] for o in s["ops"])
+    return anyh, meta, refs
+
+
+def rand_obs(rng):
+    r = rng.random()
+    if r < 0.35:
+        route = rng.choice(DEFAULT_ROUTES)
+    elif r < 0.7:
+        route = rng.choice(LAYOUT_ROUTES)
+    elif r < 0.97:
+        route = rng.choice(OTHER_ROUTES)
+    else:
+        route = rng.choice(FILE_ROUTES)
+    obs = {"route": route, "indent": rng.choice([0, 0, 1, 2, 7]), "eol": rng.choice(EOLS)}
+    if rng.random() < 0.3:
+        obs["depth"] = rng.choice([1, 2, 3, 5])
+    if rng.random() < 0.25:
+        obs["before"], obs["after"] = rng.choice([0, 1, 2, 5]), rng.choice([0, 1, 3])
+    if rng.random() < 0.1:
+        obs["nest"] = rng.choice([1, 2, 3, 6])
+    if route == "taglist":
+        obs["add_ws"] = rng.random() < 0.5
+    return obs
+
+
+def rand_darg(rng, i, plain_only, self_ok=False):
+    """a dict argument for tag number i: a literal, or (i > 0) the map of an earlier tag"""
+    top = i if self_ok else i - 1
+    if top >= 0 and rng.random() < 0.45:
+        return ["r", rng.randrange(0, top + 1), rng.choice(HOWS)]
+    return ["d", rand_dict(rng, plain_only)]
+
+
+def rand_mk(rng):
+    mk, names = rng.choice(MKS)
+    return [mk, rng.choice(names)]
+
+
+def rand_prog(rng):
+    plain_only = rng.random() < 0.2
+    stages = []
+    for i in range(rng.choice([1, 2, 2, 3, 3, 4])):
+        dicts = [rand_darg(rng, i, plain_only) for _ in range(rng.choice([0, 1, 1, 2, 3]))]
+        r = rng.random()
+        if i > 0 and r < 0.2:
+            kw = ["r", rng.randrange(0, i), rng.choice(HOWS)]
+        else:
+            kw = ["d", kw_ok(rand_dict(rng, plain_only))]
+        ops = []
+        for _ in range(rng.choice([0, 0, 1, 2, 3])):
+            r = rng.random()
+            if r < 0.3:
+                okw = ["d", kw_ok(rand_dict(rng, plain_only))] if rng.random() < 0.8 else \
+                    ["r", rng.randrange(0, i + 1), rng.choice(HOWS)]
+                ops.append(["u", [rand_darg(rng, i, plain_only, True) for _ in range(rng.choice([1, 1, 2]))], okw])
+            elif r < 0.4:
+                ops.append(["sa", rng.randrange(0, i + 1), rng.choice(HOWS)])
+            elif r < 0.5:
+                ops.append(["cf", rng.randrange(0, i + 1), rng.random() < 0.5])
+            else:
+                ops.append(rand_basic_op(rng, plain_only))
+        mk, kid = rand_mk(rng), rng.choice([None, None, 0, 1, 5])
+        if i > 0 and rng.random() < 0.12:
+            j = rng.randrange(0, i)
+            mk, dicts, kw, kid = [rng.choice(sorted(COPY_MKS)), stages[j]["mk"][1]], [["r", j, "attrs"]], ["d", []], None
+        stages.append({"mk": mk, "dicts": dicts, "kw": kw, "kid": kid, "ops": ops, "obs": rand_obs(rng)})
+    return {"prog": stages, "twin": rng.random() < 0.3}
+
+
+# ---- sizes and depths: sparse, but every threshold in the quick tier ---------------------------
+SIZES = [7, 8, 9, 15, 16, 17, 31, 32, 33, 63, 64, 65, 127, 128, 129, 255, 256, 257, 300]
+LENGTHS = [299, 300, 301, 4999, 5000, 5003, 65537, 70001, 131075]     # (the model needs about 1 s per 100 000 characters)
+TAILS = ['a"b', "<&>", "it's\n", "\r", 'x" onclick="alert(1)', "&amp;", "'"]
+HTMLS = ["<h>", "h&amp;", "h", '"q"']
+
+
+def stage(dicts, kw=None, ops=None, mk=None, obs=None, kid=None):
+    return {"mk": mk or ["Tag", "div"], "dicts": dicts, "kw": kw or ["d", []], "kid": kid,
+            "ops": ops or [], "obs": obs or {"route": "r0"}}
+
+
+def follow_up(rng, k=0):
+    """a second tag that takes the map of tag k back in and merges one more plain value into the
+    attribute of interest: what lies beyond the threshold must survive the way back in"""
+    how = rng.choice(HOWS)
+    extra = [["class", ["S", rng.choice(TAILS)]], ["title", ["S", rng.choice(TAILS)]]]
+    if rng.random() < 0.5:
+        return stage([["r", k, how], ["d", extra]], mk=rand_mk(rng), obs=rand_obs(rng))
+    return stage([["d", extra]], kw=["r", k, how], mk=rand_mk(rng), obs=rand_obs(rng))
+
+
+def sized_progs(rng):
+    out = []
+    for n in SIZES:
+        m, h = rng.choice(TAILS), rng.choice(HTMLS)
+        # n attributes on one tag, the last one merged from a plain and an HTML value
+        d = [["data_%d" % j, ["S", "v%d" % j]] for j in range(n - 1)] + [["title", ["S", m]]]
+        out.append([stage([["d", d], ["d", [["title", ["H", h]]]]], obs=rand_obs(rng), mk=rand_mk(rng))])
+        # n values merged into one attribute by n positional dicts; one HTML value near the end
+        ds = [["d", [["class", ["S", "c%d" % j]]]] for j in range(n)]
+        ds[-1] = ["d", [["class", ["S", m]]]]
+        if rng.random() < 0.7:
+            ds[rng.choice([0, n // 2, n - 2])] = ["d", [["class_", ["H", h]]]]
+        out.append([stage(ds, obs=rand_obs(rng), mk=rand_mk(rng))])
+        # n keyword arguments, the last plain with metacharacters, merged with a dict value
+        kw = [["k%d" % j, ["I", j]] for j in range(n - 1)] + [["class_", ["S", m]]]
+        out.append([stage([["d", [["class", ["H", h]]]]], kw=["d", kw], obs=rand_obs(rng), mk=rand_mk(rng))])
+        # a history of n operations on one tag; the last ones carry the interesting values
+        ops = [["c", ["S", "c%d" % j], j % 5 == 0] if j % 3 else ["y", ["S", "p%d:1;" % j], j % 2 == 0] for j in range(n - 2)]
+        ops += [["c", ["H", h], False], ["c", ["S", m], rng.random() < 0.5]]
+        out.append([stage([], ops=ops, obs=rand_obs(rng), mk=rand_mk(rng))])
+        ops = [["s", "data_%d" % (j % (n // 2 + 1)), ["S", "%d%s" % (j, m if j == n - 1 else "")]] for j in range(n)]
+        ops.append(["u", [["d", [["data_0", ["H", h]]]], ["d", [["data_0", ["S", m]]]]], ["d", []]])
+        out.append([stage([], ops=ops, obs=rand_obs(rng), mk=rand_mk(rng))])
+        # n class tokens in one value, the interesting one last; then add_class / a second tag
+        toks = " ".join("c%d" % j for j in range(n - 1)) + " " + m
+        out.append([stage([["d", [["class", ["S", toks]]]]], ops=[["c", ["H", h], rng.random() < 0.5]],
+                          obs=rand_obs(rng), mk=rand_mk(rng))])
+        # one update with n dicts, n items in one dict
+        d = [["k%d" % j, ["S", "v"]] for j in range(n - 1)] + [["style", ["S", m + ";"]]]
+        out.append([stage([], ops=[["u", [["d", [["style", ["H", h]]]]] * 1 + [["d", d]], ["d", []]],
+                                   ["u", [["d", [["id", ["S", m]]]] for _ in range(n)], ["d", [["id", ["H", h]]]]]],
+                          obs=rand_obs(rng), mk=rand_mk(rng))])
+        # the tag of interest is the last of n siblings / has n siblings after it / sits under n wrappers
+        o = rand_obs(rng)
+        o["route"] = rng.choice(DEFAULT_ROUTES + LAYOUT_ROUTES + ["doc", "in_custom", "with"])
+        o["before"], o["after"] = (n, 0) if rng.random() < 0.6 else (1, n)
+        out.append([stage([["d", [["title", ["S", m]]]], ["d", [["title", ["H", h]]]]], obs=o, mk=rand_mk(rng))])
+        if n <= 70:
+            o = rand_obs(rng)
+            o["route"] = rng.choice(DEFAULT_ROUTES + LAYOUT_ROUTES + ["doc", "in_custom", "with", "two_parents"])
+            o["depth"] = n
+            out.append([stage([["d", [["title", ["S", m]]]], ["d", [["title", ["H", h]]]]], obs=o, mk=rand_mk(rng))])
+            o = rand_obs(rng)
+            o["route"] = rng.choice(DEFAULT_ROUTES + LAYOUT_ROUTES + ["doc", "with"])
+            o["nest"] = n
+            out.append([stage([["d", [["title", ["H", h]]]], ["d", [["title", ["S", m]]]]], obs=o, mk=rand_mk(rng))])
+            # a chain of n tags, each built from the map of the one before (a different way each
+            # time) plus one more value: n-fold nesting of given-back maps
+            ch = [stage([["d", [["class", ["S", m]], ["id", ["H", h]]]]], mk=rand_mk(rng))]
+            for j in range(1, n):
+                v = ["H", "h%d" % j] if j % 4 == 1 else ["S", "p%d%s" % (j, "&" if j % 3 == 0 else "")]
+                how = HOWS[(j + n) % len(HOWS)]
+                if j % 5 == 2:
+                    ch.append(stage([["d", [["class", v]]]], kw=["r", j - 1, how], mk=rand_mk(rng)))
+                else:
+                    ch.append(stage([["r", j - 1, how], ["d", [["class", v]]]], mk=rand_mk(rng),
+                                    ops=[["sa", j, "attrs"]] if j % 7 == 3 else []))
+            ch[-1]["obs"] = rand_obs(rng)
+            out.append(ch)
+    progs = []
+    for st in out:
+        if len(st) == 1:
+            st = st + [follow_up(rng)]
+        progs.append({"prog": st, "twin": rng.random() < 0.5})
+    # long strings: the interesting characters beyond the threshold (tail, or the seam between blocks)
+    for n in LENGTHS:
+        m, h = rng.choice(TAILS), rng.choice(HTMLS)
+        unit = rng.choice(["a", "ab ", "é", "x;"])
+        reps = n // len(unit)
+        longs = [["L", "S", unit, reps, m], ["L", "H", unit, reps, h]]
+        if n > 65000:
+            seam = ["L", "S", "a" * 4095 + rng.choice(["&", '"', "\n"]), n // 4096 + 1, "a" + m]
+            cands = [
+                [stage([["d", [["title", longs[0]]]], ["d", [["title", ["H", h]]]]])],
+                [stage([["d", [["class", longs[1]]]]], ops=[["c", ["S", m], False]])],
+                [stage([["d", [["title", seam]]]], kw=["d", [["title", ["H", h]]]])],
+            ]
+            cands = [rng.choice(cands)] if n != 70001 else cands
+        else:
+            cands = [
+                [stage([["d", [["title", longs[0]]]]])],
+                [stage([["d", [["title", longs[0]]]], ["d", [["title", ["H", h]]]]])],
+                [stage([["d", [["class", longs[1]]]]], ops=[["c", ["S", m], False], ["c", longs[0], True]])],
+                [stage([], kw=["d", [["style", ["L", "S", unit, reps, m + ";"]]]], ops=[["y", ["H", "c:" + h + ";"], True]])],
+            ]
+        for st in cands:
+            st[0]["obs"], st[0]["mk"] = rand_obs(rng), rand_mk(rng)
+            progs.append({"prog": st + [follow_up(rng)], "twin": n < 6000})
+    return progs
+
+
+# =====================================================================================
+# documents and dependencies: attributes of <html>, and of the tags a dependency generates
+# =====================================================================================
+def rand_doc_case(rng):
+    plain_only = rng.random() < 0.3
+    r = rng.random()
+    if r < 0.55:
+        kw = kw_ok(rand_dict(rng, plain_only))
+        if rng.random() < 0.6:
+            kw = [["lang", rand_val(rng, plain_only)]] + [kv for kv in kw if kv[0] != "lang"]
+        if rng.random() < 0.4 and not any(k in ("class", "class_") for k, _ in kw):
+            kw.append(["class_", rand_val(rng, plain_only)])
+        own = rng.random() < 0.5
+        return {"t": "doc", "own": own,
+                "dicts": [rand_dict(rng, plain_only) for _ in range(rng.choice([0, 1, 2]))] if own else [],
+                "kw": kw, "route": rng.choice(["render", "render0", "copy", "save"])}
+
+    def sval(json_ok):
+        # plain values only: the item dicts of a dependency are typed str (and HTML() cannot be serialised)
+        v = rand_val(rng, True)
+        while v[0] in ("X", "F"):
+            v = rand_val(rng, True)
+        return v
+    route = rng.choice(["tags", "tags0", "doc", "textdoc", "str"])
+    js = route == "textdoc"
+    metas = []
+    for _ in range(rng.choice([1, 1, 2])):
+        m = [["name", ["S", trees.rand_text(rng, 5)]], ["content", sval(js)]]
+        for k in rng.sample(["property", "data-x", "class", "lang_x"], rng.choice([0, 1, 2])):
+            m.append([k, sval(js)])
+        metas.append(m)
+    script = [["src", ["S", "s.js"]]] + [[k, sval(js)] for k in rng.sample(["integrity", "data-main", "title", "async"], rng.choice([0, 1, 2]))]
+    sheet = [["rel", ["S", "stylesheet"]], ["href", ["S", "c.css"]]] + \
+        [[k, sval(js)] for k in rng.sample(["media", "title", "data-y"], rng.choice([0, 1]))]
+    return {"t": "dep", "meta": metas, "script": script, "sheet": sheet, "route": route}
+
+
+def sized_doc_cases(rng):
+    out = []
+    for n in [8, 33, 64, 129, 300]:
+        m = rng.choice(TAILS)
+        kw = [["k%d" % j, ["I", j]] for j in range(n - 1)] + [["lang", ["S", m]]]
+        out.append({"t": "doc", "own": n % 2 == 0, "dicts": [[["lang", ["H", "en"]], ["class", ["S", m]]]] if n % 2 == 0 else [],
+                    "kw": kw, "route": rng.choice(["render", "render0", "copy", "save"])})
+        meta = [["name", ["S", "n"]], ["content", ["S", "c"]]] + [["data-%d" % j, ["S", "v"]] for j in range(n - 3)] + [["title", ["S", m]]]
+        out.append({"t": "dep", "meta": [[["name", ["S", "m%d" % j]], ["content", ["S", m if j == n - 1 else "c"]]] for j in range(n)] + [meta],
+                    "script": [["src", ["S", "s.js"]], ["title", ["S", m]]], "sheet": [["rel", ["S", "stylesheet"]], ["href", ["S", "c.css"]]],
+                    "route": rng.choice(["tags", "doc", "textdoc", "str"])})
+    for n in [300, 5001, 70001]:
+        m = rng.choice(TAILS)
+        out.append({"t": "doc", "own": False, "dicts": [], "kw": [["lang", ["L", "S", "ab ", n // 3, m]]], "route": "render"})
+        out.append({"t": "dep", "meta": [[["name", ["S", "n"]], ["content", ["L", "S", "a", n, m]]]],
+                    "script": [["src", ["S", "s.js"]]], "sheet": [["rel", ["S", "stylesheet"]], ["href", ["S", "c.css"]]],
+                    "route": "textdoc" if n == 5001 else "tags"})
+    return out
+
+
+def doc_expected(c):
+    """list of (tag name, expected attribute texts in order of appearance)"""
+    if c["t"] == "doc":
+        st = call_emit(c["dicts"], [])
+        st.update(call_emit([], c["kw"]))
+        return [("html", [st])]
+    return [("meta", [call_emit([], m) for m in c["meta"]]), ("link", [call_emit([], c["sheet"])]),
+            ("script", [call_emit([], c["script"])])]
+
+
+def doc_impl(c):
+    """markup (str) for the case; for a document with the user's own <html> tag also that tag's own
+    markup afterwards"""
+    if c["t"] == "doc":
+        kw = mk_dict(c["kw"])
+        if c["own"]:
+            own = Tag("html", *[mk_dict(d) for d in c["dicts"]], Tag("head"), Tag("body", "c"))
+            doc = HTMLDocument(own, **kw)
+        else:
+            own = None
+            doc = HTMLDocument(Tag("nav", "c"), "d", **kw)
+        r = c["route"]
+        if r == "render":
+            out = doc.render()["html"]
+        elif r == "render0":
+            out = doc.render(lib_prefix=None, include_version=False)["html"]
+        elif r == "copy":
+            out = copy.copy(doc).render()["html"]
+        else:
+            out = read_back(lambda path: doc.save_html(path, libdir=None, include_version=False))
+        again = doc.render()["html"]
+        return out, again, (own.get_html_string() if own is not None else None)
+    dep = HTMLDependency("n", "1.0", meta=[mk_dict(m) for m in c["meta"]], script=mk_dict(c["script"]),
+                         stylesheet=mk_dict(c["sheet"]))
+    r = c["route"]
+    if r == "tags":
+        out = dep.as_html_tags().get_html_string()
+    elif r == "tags0":
+        out = dep.as_html_tags(lib_prefix=None, include_version=False).get_html_string(2, "\r\n")
+    elif r == "str":
+        out = str(dep)
+    elif r == "doc":
+        out = HTMLDocument(Tag("nav", "x", dep)).render(lib_prefix=None)["html"]
+    else:
+        old = htmltools.html_dependency_render_mode
+        try:
+            htmltools.html_dependency_render_mode = "json"
+            text = str(TagList(Tag("nav", "x"), dep))
+        finally:
+            htmltools.html_dependency_render_mode = old
+        pat = "<!-- deps (.*) [here]+ $ -->"
+        page = "<html><head>" + pat + "</head><body>" + text + "</body></html>"
+        out = HTMLTextDocument(page, deps_replace_pattern=pat).render(lib_prefix=None, include_version=False)["html"]
+    again = dep.as_html_tags(lib_prefix=None).get_html_string()
+    return out, again, None
+
+
+def doc_judge(c, r):
+    try:
+        doc_expected(c)
+    except TypeError:
+        return None if r[0] == "err" else "invalid attribute value type accepted"
+    if r[0] != "ok":
+        return f"valid attribute arguments raised {r}"
+    out, again, own = r[1]
+    want = doc_expected(c)
+    anyh = any(xv(v)[0] == "H" for d in list(c.get("dicts") or []) + [c.get("kw") or []] + list(c.get("meta") or []) +
+               [c.get("script") or [], c.get("sheet") or []] for _, v in d)
+
+    def cmp(text, want, what):
+        for name, sts in want:
+            if name == "html":
+                # HTML() values are verbatim: the expected opening tag must be what follows the tag name
+                m = re.search(r"<html(?=[ >])", text)
+                if m is None:
+                    return f"{what}: no <html> opening tag"
+                want_s = "".join(f' {k}="{v}"' for k, v in sts[0].items())
+                if not text.startswith(want_s + ">", m.end()):
+                    return f"{what}: <html> " + attr_text_msg(sts[0], text[m.end():m.end() + len(want_s) + 1] + "...", anyh)
+                msg = attr_text_msg(sts[0], want_s, anyh)
+                if msg:
+                    return f"{what}: <html> {msg}"
+                continue
+            found = [f for f in open_tags(text, name)
+                     if not f.startswith((' charset=', ' type="application/'))]    # the document's own <meta> / <script>
+            if len(found) != len(sts):
+                return f"{what}: {len(found)} <{name}> opening tags, expected {len(sts)}"
+            for f, st in zip(found, sts):
+                msg = attr_text_msg(st, f, anyh)
+                if msg:
+                    return f"{what}: <{name}> {msg}"
+        return None
+    msg = cmp(out, want, "route " + c["route"])
+    if msg:
+        return msg
+    msg = cmp(again, want, "rendered a second time")
+    if msg:
+        return msg
+    if own is not None:
+        return cmp(own, [("html", [call_emit(c["dicts"], [])])], "the user's own <html> tag after the document was rendered")
+    return None
+
+
+# =====================================================================================
+def long_strings(rng):
+    out = []
+    for n in LENGTHS:
+        m = rng.choice(TAILS)
+        three = ["a" * n + m, m + "b" * n, ("a" * 63 + rng.choice(METAS)) * (n // 64) + "z" * (n % 64) + m]
+        out += three if n < 65000 else [three[n % 3]]
+    out.append("a" * 65535 + '"' + "a" * 10)
+    return out
 
 
 def run(ctx: Ctx) -> None:
     rng = ctx.rng
     ctx.rule = ("(1) html_escape(s, attr=True): every code point below a bound singly (quick 0x3000, thorough all), "
-                "exhaustive strings up to length 3 (thorough 4) over the 7 metacharacters + ; # a, random strings; "
+                "exhaustive strings up to length 3 (thorough 4) over the 7 metacharacters + ; # a, random strings, strings "
+                "of 300 .. 131 000 characters with the metacharacters in the tail / at block seams; "
                 "(2) attribute scenarios: construction from positional dicts and keywords with several values per "
                 "name, then update / item assignment / add_class / add_style, every mix of plain and HTML() values, "
-                "rendered and compared with the text the statement demands between the quotes. Non-trivial = a "
-                "plain value with a metacharacter is merged with another value; distinct = canonical scenario.")
+                "rendered and compared with the text the statement demands between the quotes; "
+                "(3) programs of several tags where the attribute map of one tag is given to another (tag.attrs, dict(), "
+                "copies, consolidate_attrs, **kwargs, item by item, the tag's own map), built through every public "
+                "constructor and observed through every public rendering route with non-default layout arguments, twice, "
+                "plus a twin built from the same argument objects; sizes 7..300 of every countable thing, strings up to "
+                "131 000 characters; (4) attributes of <html> given to HTMLDocument and of the tags a dependency generates. "
+                "Non-trivial = a plain value with a metacharacter is merged with another value; distinct = canonical scenario.")
     ctx.assumptions = ["html.parser / html.unescape are correct reference decoders"]
     ctx.proof()
 
@@ -221,6 +1087,7 @@ def run(ctx: Ctx) -> None:
     for n in range(0, ctx.budget(3, 4) + 1):
         strs += ["".join(t) for t in itertools.product(alpha, repeat=n)]
     strs += [trees.rand_text(rng, 30) for _ in range(ctx.budget(3000, 50000))]
+    strs += long_strings(rng)
 
     def esc_oracle(s, out):
         if out != spec_escape(s):
@@ -229,16 +1096,18 @@ def run(ctx: Ctx) -> None:
             return "escaped attribute value contains a quote, angle bracket or line break"
         return None
 
+    strs = ctx.select("html_escape(attr=True)", strs)
     m = run_model([[2, S(s)] for s in strs], driver="c03")
     bad = []
     for s, r in zip(strs, m):
-        ctx.count(("esc", s), any(ch in s for ch in "\"'<>&\r\n"), "html_escape(attr=True)")
-        out = htmltools.html_escape(s, attr=True)
+        ctx.count(("esc", s if len(s) < 200 else (len(s), s[-40:])), any(ch in s for ch in METAS), "html_escape(attr=True)")
+        o = safe_call(lambda: htmltools.html_escape(s, attr=True))
+        out = o[1] if o[0] == "ok" else repr(o)
         msg = esc_oracle(s, out)
         if msg:
-            ctx.violation("html_escape(attr=True): " + msg, s, {"impl_output": out})
+            ctx.violation("html_escape(attr=True): " + msg, s, {"impl_output": out[-300:], "input_length": len(s)})
         if unS(r[0]) != out or unS(r[1]) != out or unS(r[2]) != s:
-            bad.append(s)
+            bad.append(s if len(s) < 300 else "(%d chars) ...%s" % (len(s), s[-60:]))
     ctx.corr_cases += len(strs)
     ctx.obligation(f"correspondence html_escape(attr=True) ({len(strs)} cases): impl == model == spec, unescape gives back the input", not bad)
     if bad:
@@ -253,34 +1122,25 @@ def run(ctx: Ctx) -> None:
         {"dicts": [], "kw": [["style", ["H", "a:b;"]]], "ops": [["y", ["S", 'c:"d";'], False]]},
     ]
 
-    def oracle(c, out):
+    def pool_msg():
         broken = _pool_intact()
         if broken:
             for k in broken:
                 _HTML_POOL[k] = HTML(k)
             return ("an HTML() object given as an attribute value was modified by the library (it is shared with "
-                    f"other uses and no longer denotes its markup): {broken[0]!r}")
+                    f"other uses and no longer denotes its markup): {broken[0][:200]!r}")
+        return None
+
+    def oracle(c, out):
+        msg = pool_msg()
+        if msg:
+            return msg
         want = expected(c)
         if want is None:
             return None if out[0] == "err" else "invalid attribute value type accepted"
         if out[0] != "ok":
             return f"valid attribute arguments raised {out}"
-        want_s = "".join(f' {k}="{v}"' for k, v in want.items())
-        if out[1] != want_s:
-            return ("attribute text differs from: each plain value escaped (attribute table) exactly once, "
-                    "HTML() values verbatim, joined by single spaces")
-        anyh, _ = has_html(c)
-        if not anyh:
-            p = OpenTag()
-            p.feed("<div" + out[1] + ">")
-            if len(p.tags) != 1 or [k for k, _ in p.tags[0][1]] != [k.lower() for k in want]:
-                return "opening tag does not tokenize into exactly the expected attributes"
-            for (k, v), (k2, e) in zip(p.tags[0][1], want.items()):
-                if (v or "") != pyhtml.unescape(e):
-                    return "attribute value does not decode to the supplied value"
-            if "\n" in out[1] or "\r" in out[1]:
-                return "opening tag is broken across lines"
-        return None
+        return attr_text_msg(want, out[1], has_html(c)[0])
 
     def nontriv(c):
         a, b = has_html(c)
@@ -294,6 +1154,63 @@ def run(ctx: Ctx) -> None:
                  to_sx=case_sx, impl=impl,
                  decode=lambda m: ("err", m[1]) if m[0] == 1 else ("ok", "".join(unS(kv[1]) for kv in m[1])),
                  oracle=oracle, nontrivial=nontriv, kind=kind, driver="c03")
+
+    # ---- programs ----------------------------------------------------------------------
+    progs = sized_progs(rng) + [rand_prog(rng) for _ in range(ctx.budget(1600, 30000))]
+
+    def prog_oracle(p, out):
+        msg = pool_msg()
+        if msg:
+            return msg
+        wants = prog_expected(p)
+        anyh = prog_traits(p)[0]
+        for i, (want, o) in enumerate(zip(wants, out)):
+            s = p["prog"][i]
+            where = "a tag of the program"      # (which one: compare impl_output with the case; one report per kind)
+            if want is None:
+                if o[0] != "err":
+                    return where + ": invalid attribute value type accepted"
+                continue
+            if o[0] != "ok":
+                return where + f": valid attribute arguments raised / could not be rendered: {tuple(o[:2])}"
+            msg = attr_text_msg(want, o[1], anyh)
+            if msg:
+                return where + ": " + msg
+            for what, side in (("built a second time from the same argument objects", _LAST["twins"]),
+                               ("rendered again after the later tags were built from it and every route was used", _LAST["again"])):
+                if i in side:
+                    o2 = side[i]
+                    if o2[0] != "ok":
+                        return where + f", {what}: raised {tuple(o2[:2])}"
+                    msg = attr_text_msg(want, o2[1], anyh)
+                    if msg:
+                        return where + f", {what}: " + msg
+        return None
+
+    def prog_kind(p):
+        a, b, r = prog_traits(p)
+        big = any(len(s["dicts"]) + len(s["ops"]) > 6 for s in p["prog"]) or len(p["prog"]) > 4
+        return (("given-back maps, " if r else "") + ("mixed plain/HTML" if a and b else "HTML only" if a else
+                "plain with metacharacters" if b else "plain") + (", large" if big else ""))
+
+    def prog_decode(m):
+        return [("err", r[1]) if r[0] == 1 else ("ok", "".join(unS(kv[1]) for kv in r[1])) for r in m]
+
+    differential(ctx, "attribute programs -> emitted attribute text of every tag", progs,
+                 to_sx=prog_sx, impl=prog_impl, decode=prog_decode, oracle=prog_oracle,
+                 nontrivial=lambda p: prog_traits(p)[1], kind=prog_kind, driver="c03")
+
+    # ---- documents and dependencies ------------------------------------------------------
+    name = "document / dependency attributes"
+    dcases = ctx.select(name, sized_doc_cases(rng) + [rand_doc_case(rng) for _ in range(ctx.budget(600, 8000))])
+    for c in dcases:
+        ctx.count(c, True, "HTMLDocument attributes" if c["t"] == "doc" else "dependency tag attributes")
+        r = safe_call(lambda: doc_impl(c))
+        msg = pool_msg() or doc_judge(c, r)
+        if msg:
+            ctx.violation(f"{name}: {msg}", c, {"impl_output": [x if x is None or len(x) < 3000 else x[:1500] + " ... " + x[-1500:]
+                                                               for x in r[1]] if r[0] == "ok" else r})
+
 
 
 def replay(ctx: Ctx, path: str) -> None:
